@@ -714,6 +714,21 @@ def _chan_cb_error_closes_with_error():
     return "true" if 0 <= i < j and "errortext = self.gateway._geterrortext(exc)" in t else "false"
 
 
+@fact("chan_errortext_ok", "bool", "false")
+def _chan_errortext_ok():
+    """the text that travels with CHANNEL_CLOSE_ERROR is traceback.format_exception(type, value, tb) joined (type, message and
+    remote traceback), with `Type: message` as the fall-back; the worker reports every exception of the body except
+    KeyboardInterrupt / EOFError handling through channel.close(errortext); the receiving side wraps the text in RemoteError"""
+    g = _src(find("gateway_base.py", "geterrortext"))
+    ok = "l = format_exception(type(exc), exc, exc.__traceback__)" in g and "errortext = ''.join(l)" in g and "errortext = f'{type(exc).__name__}: {exc}'" in g
+    ok = ok and "format_exception=traceback.format_exception" in g
+    e = _src(find("gateway_base.py", "WorkerGateway._executetask"))
+    ok = ok and "except BaseException as exc:\n        if not channel.gateway._channelfactory.finished:\n            errortext = self._geterrortext(exc)\n            channel.close(errortext)\n            return" in _src(_Strip().visit(__import__("copy").deepcopy(find("gateway_base.py", "WorkerGateway._executetask"))))
+    m = _src(find("gateway_base.py", "Message"))
+    ok = ok and "error_message = loads_internal(message.data)" in m and "remote_error = RemoteError(error_message)" in m
+    return "true" if ok else "false"
+
+
 @fact("chan_handlers_ok", "bool", "false")
 def _chan_handlers_ok():
     """the message handlers map CHANNEL_DATA / CLOSE / CLOSE_ERROR / LAST_MESSAGE onto _local_receive / _local_close"""
